@@ -15,6 +15,7 @@ class Derived:
         self.func = func
         self.is_source = is_source
         self.names = set(extra_seeds)        # local names that may alias (a part of) the tracked object
+        self.holder_sites = {}
         self.holders = {}                    # local containers that may hold a tracked part: chain -> {constant key text | None (any key)}
         changed = True
         while changed:
@@ -68,7 +69,7 @@ class Derived:
                 b = b.value
             c = attr_chain(b)
             if c and self.derived(value) and not self.derived(b):
-                ch |= self._add_holder(c, key)
+                ch |= self._add_holder(c, key, t)
         elif isinstance(t, ast.Attribute):
             c = attr_chain(t)
             if c and self.derived(value) and c not in self.names:
@@ -76,8 +77,12 @@ class Derived:
                 ch = True
         return ch
 
-    def _add_holder(self, chain, key):
+    def _add_holder(self, chain, key, node=None):
         ks = self.holders.setdefault(chain, set())
+        if node is not None:
+            self.holder_sites.setdefault((chain, key), [])
+            if node not in self.holder_sites[(chain, key)]:
+                self.holder_sites[(chain, key)].append(node)
         if key in ks or None in ks:
             return False
         ks.add(key)
@@ -145,6 +150,46 @@ class Derived:
                     if isinstance(t, ast.Subscript) and self.derived(t.value):
                         out.append((n, 'del %s' % unparse(t)))
             elif isinstance(n, ast.Call) and isinstance(n.func, ast.Attribute) and n.func.attr in MUTATORS:
-                if self.derived(n.func.value):
+                if self.derived(n.func.value) and not self._only_exclusive_holder(n.func.value, n):
                     out.append((n, '%s on %s' % (n.func.attr, unparse(n.func.value))))
         return out
+
+    def _only_exclusive_holder(self, recv, node):
+        """The receiver is `holder[const]` whose only tracked stores sit in branches mutually exclusive with
+        `node` (if/else of the same test): the tracked value cannot be what is mutated here."""
+        if not (isinstance(recv, ast.Subscript) and isinstance(recv.slice, ast.Constant)):
+            return False
+        if self.derived(recv.value):
+            return False
+        c = attr_chain(recv.value)
+        if c is None:
+            return False
+        sites = self.holder_sites.get((c, unparse(recv.slice)), [])
+        if not sites or None in self.holders.get(c, set()):
+            return False
+        return all(_exclusive(s, node) for s in sites)
+
+
+def _ancestors(n):
+    out = []
+    while n is not None:
+        out.append(n)
+        n = getattr(n, '_parent', None)
+    return out
+
+
+def _exclusive(a, b):
+    aa, bb = _ancestors(a), _ancestors(b)
+    for x in aa:
+        if isinstance(x, ast.If) and x in bb:
+            def side(n, anc):
+                for y in anc:
+                    if y in x.body:
+                        return 'body'
+                    if y in x.orelse:
+                        return 'orelse'
+                return None
+            sa_, sb_ = side(a, aa), side(b, bb)
+            if sa_ and sb_ and sa_ != sb_:
+                return True
+    return False
